@@ -51,6 +51,8 @@ class Adapter(EnvAdapter):
                 _c("s3x3a2_t1", "random", 3, 3, 2, 1, 0.5, episodes=6, max_steps=4, policies=POL),
                 _c("r3x4a2_tnone", "random", 3, 4, 2, None, 0.5, episodes=5, max_steps=15,
                    policies=["sweep", "legal", "inject", "masked", "random"]),
+                # the penalty given as a Python int: rewards must stay float32
+                _c("r2x4a1_t3_pint", "random", 2, 4, 1, 3, 1, episodes=4, max_steps=6, policies=POL),
             ]
         out = [_c("default10a3", "default", 10, 10, 3, None, None, episodes=12, max_steps=104,
                   probe_every=3, probe_cap=28, policies=POL)]
@@ -65,6 +67,7 @@ class Adapter(EnvAdapter):
                 out.append(_c(f"r{r}x{c}a{n}_t{'none' if tl is None else tl}_p{int(pen * 10)}", "random", r, c, n, tl, pen,
                               episodes=18 if horizon <= 7 else 12, max_steps=horizon + 3,
                               probe_every=1 if horizon <= 10 else 3, probe_cap=64 if r * c <= 30 else 40, policies=POL))
+        out.append(_c("r2x4a1_t3_pint", "random", 2, 4, 1, 3, 1, episodes=12, max_steps=6, policies=POL))
         seen = set()
         return [c for c in out if not (c["id"] in seen or seen.add(c["id"]))]
 
